@@ -17,7 +17,9 @@ package main
 //   typed    seeded random well-typed statements from the typed grammar
 //   mutant   every single-fault mutant of them: the fault placed at every node of the tree
 //            (under !, inside function arguments, IN lists, BETWEEN bounds, select fields)
-//   known    the shapes of the known findings (accepted, fail with an operand-type error)
+//   not-judged  shapes outside the property's verdict (function parameter types; element access /
+//            membership on list values, dynamically typed like JSON) and the one known finding
+//            (= / != with a float operand): twin comparison only
 
 import (
 	"errors"
@@ -892,8 +894,8 @@ func (g *c14gen) gen(t xty, d int) *xnode {
 	return xs("a")
 }
 
-// a comparison of `key` with `key` (or value with value) is refused by the checker (a known
-// finding with its own stream); the typed grammar does not produce it
+// a comparison of `key` with `key` (or value with value) is not a statement of the language
+// (side rule of Spec/Typing.v); the typed grammar does not produce it
 func (g *c14gen) notSameField(l, r *xnode) *xnode {
 	if l.k == xField && r.k == xField && l.s == r.s {
 		return xs(pick(g.r, c14Strs))
@@ -1319,12 +1321,6 @@ func knownShape(s *xstmt) string {
 	walk = func(n *xnode) {
 		if n.k == xBin {
 			l, r := n.kids[0], n.kids[1]
-			switch n.op {
-			case "=", "!=", "^=", "~=", ">", ">=", "<", "<=":
-				if l.k == xField && r.k == xField && l.s == r.s && found == "" {
-					found = "same-field-comparison"
-				}
-			}
 			if (n.op == "=" || n.op == "!=") && (mayBeFloat(l) || mayBeFloat(r)) && numeric(l) && numeric(r) && found == "" {
 				found = "float-equality"
 			}
@@ -1493,32 +1489,28 @@ func numberList(n *xnode) bool {
 }
 
 var c14KnownSig = map[string]string{
-	"same-field-comparison":       "C14/rejects-same-field-comparison",
-	"float-equality":              "C14/float-equality-fails-at-execution",
-	"number-list-element-as-text": "C14/number-list-element-typed-as-text",
-	"function-parameter-type":     "C14/function-parameter-type-checked-at-execution",
-	"in-list-element-kind":        "C14/in-list-element-kind-error-in-batch-mode",
+	"float-equality": "C14/float-equality-fails-at-execution",
 }
 
-// c14KnownCase: the twin comparison still runs (mode 1); the deviation from the typing rules
-// is reported under the finding's own signature, and only if it shows exactly as recorded.
+// c14KnownCase: shapes on which the typing verdict is not applied.
+//   float-equality              the one known finding: reported under its own signature, and
+//                               only if it shows exactly as recorded (accepted, then an
+//                               operand-type error at execution)
+//   function-parameter-type     parameter TYPES of functions are not among the faults the
+//                               property lists: neither required to be rejected nor judged
+//   number-list-element-as-text, in-list-element-kind
+//                               element access / membership on list VALUES is dynamically typed
+//                               like JSON field access, which the property excepts
+// The twin comparison (accept / position / tree) still runs for all of them (mode 1).
 func c14KnownCase(e *emitter, s *xstmt, shape string) {
-	idx, o, rp := c14Case(e, s, "known", shape, "", 1)
+	idx, o, rp := c14Case(e, s, "not-judged", shape, "", 1)
 	if idx < 0 {
 		return
 	}
-	e.count("known=" + shape)
-	switch shape {
-	case "same-field-comparison":
-		if o.cls == 2 && o.calls == 0 {
-			midx := e.add("Case (SRemove []) 2 0 0 0 None false", rp, false)
-			e.fail(midx, "a comparison of key with key (or value with value) is rejected although the typing rules allow it", c14KnownSig[shape], rp)
-		}
-	default:
-		if o.cls == 0 && o.typeErr != "" {
-			midx := e.add("Case (SRemove []) 2 0 0 0 None false", rp, false)
-			e.fail(midx, "accepted statement fails at execution with an operand-type error: "+shape, c14KnownSig[shape], rp)
-		}
+	e.count("not_judged=" + shape)
+	if shape == "float-equality" && o.cls == 0 && o.typeErr != "" {
+		midx := e.add("Case (SRemove []) 2 0 0 0 None false", rp, false)
+		e.fail(midx, "accepted statement fails at execution with an operand-type error: = / != with a float operand", c14KnownSig[shape], rp)
 	}
 }
 
@@ -1528,8 +1520,9 @@ func c14Known(e *emitter) {
 		return &xstmt{form: "select", fields: []xfield{{f, ""}}, where: xb("^=", xkey(), xs(""))}
 	}
 	for _, op := range []string{"=", "!=", "^=", "<"} {
-		c14KnownCase(e, where(xb(op, xkey(), xkey())), "same-field-comparison")
-		c14KnownCase(e, where(xb(op, xval(), xval())), "same-field-comparison")
+		// the side rule of the typing: never key with key, nor value with value
+		c14Classify(e, where(xb(op, xkey(), xkey())), "grid", "same-field-comparison")
+		c14Classify(e, where(xb(op, xval(), xval())), "grid", "same-field-comparison")
 	}
 	for _, op := range []string{"=", "!="} {
 		c14KnownCase(e, where(xb(op, xcall("float", xval()), xf("1.5"))), "float-equality")
